@@ -11,13 +11,43 @@ import (
 
 var verifPHosts = []string{"h0:80", "h1:80", "h2:80"}
 
-// verifPMaxT bounds every instant and FailTimeout (2^60 ns, both tiers) so that
-// no difference of two instants leaves the int64 range (time.Time.Sub saturates
-// there; the engine's time model does not).
-var verifPMaxT = int64(1) << 60
+// Range of instants and FailTimeout.
+//
+// thorough tier: 64-bit unknowns in [0, 2^60] ns (2^60 only keeps differences of
+// instants inside int64: time.Time.Sub saturates there, the engine's time model
+// does not).
+//
+// quick tier: 16-bit unknowns (zero-extended to int64 ns). The filter looks at
+// instants only through comparisons of differences with FailTimeout. Whether a
+// given combination of such comparisons (over the at most 9 unknowns of a quick
+// history) is possible does not depend on magnitudes: if it has a solution at
+// all it has one in small integers (the constraints are linear with
+// coefficients in {-1,0,1}; vertex solutions are bounded by small determinants),
+// far below 2^16. So every behaviour of the timeline logic is still reached;
+// what the quick tier does not see is behaviour that depends on magnitude
+// (overflow near the ends of int64), which the thorough tier covers up to 2^60.
+// The narrow unknowns make the solver's 64-bit arithmetic collapse to ~19 bits,
+// which keeps the quick tier fast also on trees that phrase the window
+// arithmetic differently (e.g. now.Add(-FailTimeout) instead of now.Sub(t)).
+var (
+	verifPBits = 60
+	verifPMaxT = int64(1) << 60
+)
 
 func verifPTimeRange() {
-	verifPMaxT = int64(1) << uint(verif.Bound("time_bits", 60, 60))
+	verifPBits = verif.Bound("time_bits", 16, 60)
+	verifPMaxT = int64(1) << uint(verifPBits)
+}
+
+// verifPNonNeg is an unknown in [0, verifPMaxT].
+func verifPNonNeg(name string) int64 {
+	if verifPBits <= 16 {
+		return int64(verif.Uint16(name))
+	}
+	v := verif.Int64(name)
+	verif.Assume(v >= 0)
+	verif.Assume(v <= verifPMaxT)
+	return v
 }
 
 type verifPHostList struct{ set stringset.Set }
@@ -48,15 +78,12 @@ func verifPFiltered(fs []int64, now, ft int64, fails int) bool {
 func verifPassiveTimeline(nhosts, steps int) {
 	verifPTimeRange()
 	fails := verif.IntRange("fails", 1, 3)
-	ft := verif.Int64("fail_timeout")
+	ft := verifPNonNeg("fail_timeout")
 	verif.Assume(ft >= 1)
-	verif.Assume(ft <= verifPMaxT)
-	verif.Note("instants and FailTimeout within [0, 2^time_bits] ns ; clock never goes backwards")
+	verif.Note("instants and FailTimeout are time_bits-wide unknowns (quick: 16-bit, by the small-model argument in the harness source; thorough: up to 2^60 ns); clock never goes backwards")
 
 	clk := clock.NewMock()
-	now := verif.Int64("t0")
-	verif.Assume(now >= 0)
-	verif.Assume(now <= verifPMaxT)
+	now := verifPNonNeg("t0")
 	clk.Set(time.Unix(0, now))
 
 	pf := NewPassiveFilter(PassiveFilterConfig{Fails: fails, FailTimeout: time.Duration(ft)}, clk)
@@ -86,12 +113,12 @@ func verifPassiveTimeline(nhosts, steps int) {
 	}
 
 	advance := func() {
-		d := verif.Int64("advance")
-		verif.Assume(d >= 0)
-		verif.Assume(d <= verifPMaxT)
+		d := verifPNonNeg("advance")
 		prev := now
 		now += d
-		verif.Assume(now <= verifPMaxT)
+		if verifPBits > 16 {
+			verif.Assume(now <= verifPMaxT)
+		}
 		// Solver hints, not restrictions: both facts follow from prev <= now,
 		// the order of the recorded failures and the range bound (no overflow);
 		// stating them spares the solver a bit-level proof of monotonicity.
